@@ -4,6 +4,7 @@ From Coq Require Import Bool List NArith ZArith Lia Arith ZifyN ZifyNat ZifyBool
 From Coq.Strings Require Import Byte.
 From GoUefi Require Import Base.Bytes Base.Outcome Base.Reader Base.Der Base.Sha256 Model.Pkcs7
   Spec.P7Check Proofs.DerProofs Proofs.P7Proofs.
+From GoUefi Require Import Proofs.AttrSort.
 Import ListNotations.
 Ltac Zify.zify_post_hook ::= Z.div_mod_to_equations.
 Local Open Scope N_scope.
@@ -211,18 +212,46 @@ Qed.
 Lemma attr_nonnil o v rest : is_nilb (attr o v ++ rest) = false.
 Proof. reflexivity. Qed.
 
+(* three elements sort to one of their six arrangements *)
+Lemma sort3_cases (a b c : bytes) :
+  sort_b [a; b; c] = [a; b; c] \/ sort_b [a; b; c] = [a; c; b] \/ sort_b [a; b; c] = [b; a; c] \/
+  sort_b [a; b; c] = [b; c; a] \/ sort_b [a; b; c] = [c; a; b] \/ sort_b [a; b; c] = [c; b; a].
+Proof.
+  unfold sort_b. cbn [fold_right insert_b].
+  destruct (bytes_ltb c b); cbn [insert_b];
+    destruct (bytes_ltb c a); cbn [insert_b];
+    destruct (bytes_ltb b a); cbn [insert_b]; tauto.
+Qed.
+
+Ltac attr_steps :=
+  repeat (rewrite attr_nonnil;
+          first [ rewrite attr_step_ct by assumption
+                | rewrite attr_step_time by assumption
+                | rewrite attr_step_md by assumption ];
+          cbn [E of_option bind at_raw at_ctype at_md at_time at_others]).
+
 Lemma attrs_loop_sign f raw0 ct t d :
   (3 <= f)%nat -> oid_rt ct -> blen (oid_encode ct) < 1000 -> utctime_ok t = true -> blen t < 1000 -> blen d < 1000 ->
   attrs_loop f (mkAttrs raw0 None [] None []) (attrs_body ct (Some t) d []) =
   Ret (mkAttrs raw0 (Some ct) d (Some t) []).
 Proof.
   intros Hf Ho Hl Ht Hlt Hd. destruct f as [|[|[|f]]]; try lia.
-  unfold attrs_body. cbn [flat_map]. rewrite app_nil_r.
-  cbn [Pkcs7.attrs_loop]. rewrite attr_nonnil, attr_step_ct by assumption. cbn [E of_option bind at_raw at_ctype at_md at_time at_others].
-  rewrite attr_nonnil, attr_step_time by assumption. cbn [E of_option bind at_raw at_ctype at_md at_time at_others].
-  rewrite <- (app_nil_r (attr OID_attr_messageDigest (der_octets d))).
-  rewrite attr_nonnil, attr_step_md by assumption. cbn [E of_option bind at_raw at_ctype at_md at_time at_others].
-  destruct f; reflexivity.
+  unfold attrs_body, attr_list. cbn [map app].
+  destruct (sort3_cases (attr OID_attr_contentType (der_oid ct)) (attr OID_attr_signingTime (add_asn1 T_UTCTIME t))
+                        (attr OID_attr_messageDigest (der_octets d))) as [E|[E|[E|[E|[E|E]]]]];
+    rewrite E; cbn [concat]; cbn [Pkcs7.attrs_loop]; attr_steps; destruct f; reflexivity.
+Qed.
+
+Lemma blen_concat_insert x l : blen (concat (insert_b x l)) = blen x + blen (concat l).
+Proof.
+  induction l as [|y r IH]; cbn [insert_b concat].
+  - rewrite blen_app. reflexivity.
+  - destruct (bytes_ltb y x); cbn [concat]; rewrite !blen_app; [rewrite IH|]; lia.
+Qed.
+Lemma blen_concat_sort l : blen (concat (sort_b l)) = blen (concat l).
+Proof.
+  induction l as [|x l IH]; [reflexivity|]. unfold sort_b in *. cbn [fold_right concat].
+  rewrite blen_concat_insert, blen_app, IH. reflexivity.
 Qed.
 
 Lemma blen_attr o v : 2 <= blen (attr o v) <= blen (oid_encode o) + blen v + 18.
@@ -236,7 +265,7 @@ Qed.
 Lemma attrs_body_bounds ct t d : blen (oid_encode ct) < 1000 -> blen t < 1000 -> blen d < 1000 ->
   6 <= blen (attrs_body ct (Some t) d []) < 10000.
 Proof.
-  intros. unfold attrs_body. cbn [flat_map]. rewrite app_nil_r, !blen_app.
+  intros. unfold attrs_body. rewrite blen_concat_sort. unfold attr_list. cbn [map app concat]. rewrite app_nil_r, !blen_app.
   pose proof (blen_attr OID_attr_contentType (der_oid ct)) as A.
   pose proof (blen_attr OID_attr_signingTime (add_asn1 T_UTCTIME t)) as B.
   pose proof (blen_attr OID_attr_messageDigest (der_octets d)) as C.
